@@ -275,7 +275,8 @@ func tailFile(path string, n int64) string {
 	_, _ = f.ReadAt(buf, off)
 	s := string(buf)
 	if i := fatalRe.FindStringIndex(s); i != nil {
-		s = s[i[0]:]
+		// keep some of what the child printed before it died
+		s = s[max(0, i[0]-48*1024):]
 	}
 	if int64(len(s)) > n {
 		s = s[:n]
